@@ -189,6 +189,18 @@ let drv_world () =
   let chunk = ref 0 in
   let log_on = ref false in
   let ftsrev = ref false in
+  (* what realpath(3) does to the spelling of an absolute path without symbolic links: "//", "/./" and "/x/../" go *)
+  let canon_path (p : char list) : char list =
+    let s = String.concat "" (List.map (String.make 1) p) in
+    if String.length s = 0 || s.[0] <> '/' then p else
+    let parts = String.split_on_char '/' s in
+    let rec go acc = function
+      | [] -> List.rev acc
+      | "" :: r | "." :: r -> go acc r
+      | ".." :: r -> go (match acc with [] -> [] | _ :: t -> t) r
+      | x :: r -> go (x :: acc) r in
+    let c = "/" ^ String.concat "/" (go [] parts) in
+    List.init (String.length c) (String.get c) in
   let start_args = ref ("", 0, "") in
   let oracle_fn () : (nat -> fault) =
     let o = !orc and ch = !chunk in
@@ -281,7 +293,7 @@ let drv_world () =
          | None -> failwith "start: unknown cfg"
          | Some cfg ->
              bind := Some id;
-             (match run_op "start" (load_handler cfg (Some (str_tok cp)) (nat_of_int (int_of_string cpl)))
+             (match run_op "start" (load_handler cfg (Some (canon_path (str_tok cp))) (nat_of_int (int_of_string cpl)))
                       (fun r -> match r with Some _ -> "ok" | None -> "error") with
               | Some r -> h := r
               | None -> ()))
